@@ -51,21 +51,12 @@ partial def valHasNaN : Val → Bool
   | .anys xs => xs.any valHasNaN
   | _ => false
 
-mutual
-/-- a struct with an unexported embedded field somewhere: the residual defect R-C05-1 may strike -/
-partial def evPrivEmb : EV → Bool
-  | .ptr _ e => evPrivEmb e
-  | .iface e => evPrivEmb e
-  | .seq _ _ _ xs => xs.any evPrivEmb
-  | .map _ ks vs => ks.any evPrivEmb || vs.any evPrivEmb
-  | .struct _ fs vs => fs.any (fun f => !f.exported && f.anon) || vs.any evPrivEmb
-  | _ => false
-end
-
-partial def valPrivEmb : Val → Bool
-  | .leaf l => evPrivEmb l.toEV
-  | .stk _ _ xs => xs.any valPrivEmb
-  | .cnd _ _ _ _ ex => valPrivEmb ex
+/-- `EqSpec.inDomain` without the exclusion of handle-like leaves -/
+partial def inDomainLax : Val → Bool
+  | .nil => true
+  | .leaf l => EqSpec.domEV .top l.toEV
+  | .stk _ c xs => c.eqf.isNone && [Gen.kind_and, Gen.kind_or, Gen.kind_not, Gen.kind_list, Gen.kind_basic].contains c.kind && xs.all inDomainLax
+  | .cnd _ c _ _ ex => c.eqf.isNone && c.kind == Gen.kind_cond && inDomainLax ex
   | _ => false
 
 def specVerdict (same : Bool) : String := if same then "eq" else "ne"
@@ -81,18 +72,21 @@ def runEq (unit : Bool) (payload : String) : String × String × String :=
     let mab := if unit then Val.veq interpEq a b else Val.IsEqual interpEq self a b
     let mba := if unit then Val.veq interpEq b a else Val.IsEqual interpEq self b a
     let m := s!"ab={showEq mab} ba={showEq mba}"
-    let dom := EqSpec.inDomain a && EqSpec.inDomain b && !self
+    let strict := EqSpec.inDomain a && EqSpec.inDomain b && !self
+    -- a leaf that looks like a handle is kept under the specification here (known finding K-C05-2)
+    let look := !strict && !self && inDomainLax a && inDomainLax b
+    let dom := strict || look
     let sab := EqSpec.sameDesc a b
     let sba := EqSpec.sameDesc b a
     -- inside the domain the specification decides; outside it only demands "no panic" and the line
     -- repeats the model's verdict (so that what remains compared is implementation = model)
     let isPanic (r : EqRes) : Bool := match r with | .error _ => true | _ => false
-    let risky := (valPrivEmb a || valPrivEmb b) && (isPanic mab || isPanic mba)
+    let risky := isPanic mab || isPanic mba
     let noPanic (r : EqRes) : String := match r with | .error _ => "ne" | _ => showEq3 r
     let s := if dom then s!"ab={specVerdict sab} ba={specVerdict sba}"
              else s!"ab={noPanic mab} ba={noPanic mba}"
     let sane := if dom && tag == "copy" && !(sab && sba) then " GEN-SPEC-MISMATCH" else ""
-    let k := s!"{if dom then "dom" else "ood"} {tag}{if valHasNaN a || valHasNaN b then " nan" else ""}{if risky then " C05.PrivEmb" else ""}{sane}"
+    let k := s!"{if dom then "dom" else "ood"} {tag}{if valHasNaN a || valHasNaN b then " nan" else ""}{if risky then " C05.MixedEmbedded" else ""}{if look then " C05.HandleLike" else ""}{sane}"
     (m, s, k)
   | _ => ("BADCASE", "BADCASE", "")
 
